@@ -68,6 +68,25 @@ Supported subset
   DSOLModel      `self._output_statistics[: T] = {}`, `return self._output_statistics` (the dict
                  itself; `dict(..)` / `.copy()` is a new dict), `k in d`, `d[k] = v`, `return d[k]`,
                  `isinstance(statistic, StatisticsInterface)`, `raise`
+  in all three kinds of method, so that behaviour-preserving rewrites translate to the same or provably equal text:
+    helpers      a call of a module-level function of the module under translation, or of a method of its classes
+                 that is not part of the translated interface (`self._h(..)`, `super()._h(..)`, `P._h(self, ..)`,
+                 static methods), is INLINED: arguments are evaluated in the caller, left to right, and bound to the
+                 parameters (keywords, constant defaults); the helper's `return`s become the control flow / the
+                 value of the call (statement, `v = h(..)`, `if [not] h(..):`; inside a larger expression only a
+                 helper that is one `return <expression>`).  Refused with file:line: recursion, *args / **kwargs /
+                 keyword-only parameters, decorators other than staticmethod.
+    control flow `return` / `return None` anywhere (guard clause + early return == nested if/else: the rest of a block is
+                 handed to both branches of an `if` that may return; otherwise the branches are joined and the rest
+                 follows once); conditional expressions `a if c else b` of pure operands
+    locals       `v = <expression>` is let-bound at that point of the program (a query method's answer with its
+                 possible exception: `py_eval`), so hoisting a PURE sub-expression changes nothing, while reading
+                 the object earlier than the source did before changes the text
+    tests        `isinstance(e, A) or isinstance(e, B)` / `not .. and not ..` on one expression == the tuple form;
+                 `is` / `is not` on event types and None; De Morgan forms are different text but equal by the case
+                 analysis of the agreement proofs
+    messages     the text of an exception / a logger call (f-strings, `+`, `%`, adjacent literals, a local holding it)
+                 is evaluated but has no effect: it may only format names, attributes and literals
 Meaning given to them: see the prelude written into the generated file (PRELUDE below).
 
 Trusted (joins the trusted base of C11): this file -- the subset semantics above, the method
